@@ -39,8 +39,11 @@ PROBE = 0          # listener id of the observer: registered first on the applic
 IN_PROTOS = ['xml', 'soap11', 'soap12', 'json', 'yaml', 'msgpack', 'msgpackrpc', 'http']
 OUT_PROTOS = ['xml', 'soap11', 'soap12', 'json', 'yaml', 'msgpack', 'msgpackrpc', 'http']
 SHAPES = ['void', 'none', 'value', 'generator']
+SPELLINGS = ['_evmgr', '_event_manager', '_evmgrs', '_event_managers']   # singular ones first
+LEAN_SPELLING = {'_evmgr': 'evmgr', '_event_manager': 'eventManager', '_evmgrs': 'evmgrs', '_event_managers': 'eventManagers'}
 XML_FAMILY = ('xml', 'soap11', 'soap12')
 PRE_STAGES = ['createInDoc', 'decompose', 'genContexts', 'deserialize']
+FAIL_BEFORE_CALL = ['refuse'] + PRE_STAGES
 STAGE_METHOD = {'createInDoc': 'create_in_document', 'decompose': 'decompose_incoming_envelope',
                 'genContexts': 'generate_method_contexts', 'deserialize': 'deserialize'}
 S11 = 'http://schemas.xmlsoap.org/soap/envelope/'
@@ -68,7 +71,7 @@ def mgr_handlers(spec, ev):
     net += [h for e, h in spec.get('regs', []) if e == ev]
     # then the history of add / del / clear: the net registrations
     for op in spec.get('ops', []):
-        if op[1] != ev:
+        if op[1] != ev or op[0] == 'fire':
             continue
         if op[0] == 'add':
             net.append(op[2])
@@ -77,6 +80,32 @@ def mgr_handlers(spec, ev):
         else:
             net = []
     return first_occ(net)
+
+
+def spec_fires(spec):
+    """what each `fire` op of the top-level history calls: the net registrations at that moment"""
+    out = []
+    ops = spec.get('ops', [])
+    for i, op in enumerate(ops):
+        if op[0] == 'fire':
+            out.append(mgr_handlers(dict(spec, ops=ops[:i]), op[1]))
+    return out
+
+
+def expected_fanout(world, ev):
+    """MethodContext.fire_event with a descriptor: application manager, @rpc managers in order, service manager;
+    up to and including the first raising listener"""
+    seq = [('app', h) for h in mgr_handlers(world['app'], ev)]
+    for i, m in enumerate(world['meths']):
+        seq += [('meth%d' % i, h) for h in mgr_handlers(m, ev)]
+    seq += [('svc', h) for h in mgr_handlers(world['svc'], ev)]
+    rs = {(h, e) for h, e, k in world.get('raises', [])}
+    out = []
+    for l, h in seq:
+        out.append([l, h])
+        if (h, ev) in rs:
+            break
+    return out
 
 
 _STEP = {
@@ -114,7 +143,7 @@ def automaton(t):
 
 def truth(stage, co, ro):
     """Python copy of SpyneModel.Events.truth"""
-    pre = stage in PRE_STAGES
+    pre = stage in FAIL_BEFORE_CALL
     call_fail = (not pre) and co is not None
     dispatch_fail = (not pre) and (not call_fail) and stage == 'dispatch'
     user_ran = (not pre) and (not call_fail) and not dispatch_fail
@@ -206,8 +235,10 @@ class Env:
                 return (x for x in ['r%s' % (a,), 's'])
             return 'r%s' % (a,)
         kw = {} if shape == 'void' else {'_returns': Iterable(Unicode)} if shape == 'generator' else {'_returns': Unicode}
+        self.meth_mgrs = list(meth_mgrs)     # (the descriptor appends the service class's manager to the list it is given)
         if meth_mgrs:
-            kw['_evmgrs'] = meth_mgrs
+            sp = world.get('spelling', '_evmgrs')
+            kw[sp] = meth_mgrs[0] if sp in ('_evmgr', '_event_manager') else meth_mgrs
         self.svc_cls = make_class(world['svc'], 'Svc', {'op': rpc(Integer(ge=0), **kw)(op)})
         self.inp = make_proto(inp, validator)
         self.outp = make_proto(outp, validator)
@@ -325,13 +356,15 @@ class Env:
         return res
 
 
-def apply_ops(mgr, ops, fn):
-    """a history of add_listener / del_listener(event, handler) / del_listener(event) calls on a real manager;
-    returns, per op, whether KeyError was raised"""
+def apply_ops(mgr, ops, fn, on_fire=None):
+    """a history of add_listener / del_listener(event, handler) / del_listener(event) / fire_event(event) calls on a
+    real manager; returns, per op, whether KeyError was raised"""
     raised = []
     for op in ops:
         try:
-            if op[0] == 'add':
+            if op[0] == 'fire':
+                on_fire(mgr, op[1])
+            elif op[0] == 'add':
                 mgr.add_listener(op[1], fn(op[2], op[1]))
             elif op[0] == 'del':
                 mgr.del_listener(op[1], fn(op[2], op[1]))
@@ -438,15 +471,65 @@ def run_case(case, msgpack_keys):
     if inj['type'] == 'raw':
         body, http = bytes.fromhex(inj['hex']), None
     else:
-        body, http = request(case['inp'], inj.get('variant', 'ok'), msgpack_keys)
-    res = env.run_wsgi(body, http) if case['transport'] == 'wsgi' else env.run_serverbase(body)
-    res.update(trace=env.trace, stages=env.stages, user_calls=env.user_calls, user_returns=env.user_returns, out_none=env.out_none)
+        body, http = request(case['inp'], inj.get('variant', 'ok') if inj['type'] != 'refuse' else 'ok', msgpack_keys)
+    if inj['type'] == 'refuse':
+        http = dict(http or {}, **refusal_environ(inj['variant'], body))
+
+    def once():
+        res = env.run_wsgi(body, http) if case['transport'] == 'wsgi' else env.run_serverbase(body)
+        res.update(trace=list(env.trace), stages=list(env.stages), user_calls=env.user_calls, user_returns=env.user_returns,
+                   out_none=list(env.out_none))
+        return res
+    res = once()
+    if case.get('then'):
+        # more listeners are registered (and some removed) between two requests to the same application
+        then = case['then']
+        fn = lambda lvl: (lambda h, ev: env.fn(lvl, h, ev))
+        apply_ops(env.app.event_manager, then.get('app', []), fn('app'))
+        apply_ops(env.svc_cls.event_manager, then.get('svc', []), fn('svc'))
+        for i, ops in enumerate(then.get('meths', [])):
+            if i < len(env.meth_mgrs):
+                apply_ops(env.meth_mgrs[i], ops, fn('meth%d' % i))
+        del env.trace[:], env.stages[:], env.out_none[:]
+        env.user_calls = env.user_returns = 0
+        res['second'] = once()
     return res
+
+
+def world_after(world, then):
+    import copy
+    w = copy.deepcopy(world)
+    w['app']['ops'] = w['app'].get('ops', []) + then.get('app', [])
+    w['svc']['ops'] = w['svc'].get('ops', []) + then.get('svc', [])
+    for i, ops in enumerate(then.get('meths', [])):
+        if i < len(w['meths']):
+            w['meths'][i]['ops'] = w['meths'][i].get('ops', []) + ops
+    return w
+
+
+class BrokenStream(object):
+    def read(self, n=-1):
+        raise Boom('wsgi.input')
+
+
+def refusal_environ(variant, body):
+    """WSGI requests that the transport refuses while it reconstructs the input"""
+    if variant == 'too-long-declared':
+        return {'CONTENT_LENGTH': str(64 * 1024 * 1024)}
+    if variant == 'bad-length':
+        return {'CONTENT_LENGTH': 'abc'}
+    if variant == 'negative-length-text':
+        return {'CONTENT_LENGTH': '1e3'}
+    if variant == 'stream-error':
+        return {'wsgi.input': BrokenStream(), 'CONTENT_LENGTH': str(max(1, len(body)))}
+    raise ValueError(variant)
 
 
 def model_inj(case, obs):
     """the single failure of the call, for the model: intended (forced / user function) or observed (real input)"""
     inj = case['inj']
+    if inj['type'] == 'refuse':
+        return 'refuse', 'exc' if inj['variant'] == 'stream-error' else 'fault', False
     if inj['type'] == 'forced' and inj['stage'] != 'serialize':
         return inj['stage'], inj['kind'], False
     pre = [s for s in obs['stages'] if s[0] in PRE_STAGES]
@@ -474,7 +557,7 @@ def mgr_json(spec):
 def world_json(w):
     return {'app': mgr_json(w['app']), 'meths': [mgr_json(m) for m in w['meths']], 'svc': mgr_json(w['svc']),
             'inprot': mgr_json(w['inprot']), 'outprot': mgr_json(w['outprot']), 'trans': mgr_json(w['trans']),
-            'raises': [list(r) for r in w.get('raises', [])]}
+            'raises': [list(r) for r in w.get('raises', [])], 'spelling': w.get('spelling', '_evmgrs')}
 
 
 # ------------------------------------------------------------------------------------ T1 facts
@@ -592,6 +675,29 @@ def measure_facts(msgpack_keys):
     j = next((k for k, o in enumerate(tr) if k > i and o[0] == 'outprot'), len(tr))
     f['wsgiSerFail'] = (probe_syms(tr[:j], i + 1), res['escaped'] is not None)
 
+    # WsgiApplication.handle_rpc when the request input is refused (Fault) / the input stream fails (non-Fault)
+    f['wsgiRefuse'] = {}
+    for kind, variant in (('fault', 'too-long-declared'), ('exc', 'stream-error')):
+        env = Env('xml', 'xml', quiet_world())
+        body = request('xml', 'ok')[0]
+        res = env.run_wsgi(body, refusal_environ(variant, body))
+        syms = probe_syms(env.trace)[1:]
+        cut = syms.index('method_exception_document') if 'method_exception_document' in syms else len(syms)
+        f['wsgiRefuse'][kind] = (syms[:cut], res['escaped'] is not None)
+
+    # an EventManager passed to @rpc under each of the four keywords reaches descriptor.event_managers
+    f['spellingReaches'] = {}
+    for sp in SPELLINGS:
+        w = quiet_world()
+        w['meths'] = [{'regs': []}]
+        w['spelling'] = sp
+        try:
+            env = Env('xml', 'xml', w)
+            d = env.svc_cls.public_methods['op']
+            f['spellingReaches'][sp] = any(m is env.meth_mgrs[0] for m in d.event_managers)
+        except Exception:
+            f['spellingReaches'][sp] = False
+
     # the output protocols' own events and whether they leave ctx.out_string None, per result shape / for a fault /
     # before a failing serialize raises
     f['serOk'], f['serErr'], f['serPartial'], f['leavesNone'], f['leavesNoneFault'] = {}, {}, {}, {}, {}
@@ -633,6 +739,8 @@ GOOD_FACTS = {
     'genCtx': {'fault': (['method_exception_object'], False), 'exc': (['method_exception_object'], False)},
     'getIn': {'fault': (['method_exception_object'], False), 'exc': (['method_exception_object'], False)},
     'wsgiSerFail': (['method_exception_object'], False),
+    'wsgiRefuse': {'fault': (['method_exception_object'], False), 'exc': (['method_exception_object'], False)},
+    'spellingReaches': {sp: True for sp in ['_evmgr', '_event_manager', '_evmgrs', '_event_managers']},
 }
 LEAN_OUTP = {'xml': 'xml', 'soap11': 'soap11', 'soap12': 'soap12', 'json': 'json', 'yaml': 'yaml', 'msgpack': 'msgpack',
              'msgpackrpc': 'msgpackRpc', 'http': 'httpRpc'}
@@ -679,6 +787,11 @@ def facts14 : Facts14 where
     | .fault => %s
     | .exc => %s
   wsgiSerFail := %s
+  wsgiRefuse := fun k => match k with
+    | .fault => %s
+    | .exc => %s
+  spellingReaches := fun sp => match sp with
+%s
   serOk := fun o sh => match o, sh with
 %s
   serErr := fun o => match o with
@@ -693,7 +806,9 @@ def facts14 : Facts14 where
 end SpyneModel.Generated
 ''' % (evs(f['ctxInit']), evs(f['ctxClose']), proc, fin,
        lean_meas(f['genCtx']['fault']), lean_meas(f['genCtx']['exc']), lean_meas(f['getIn']['fault']),
-       lean_meas(f['getIn']['exc']), lean_meas(f['wsgiSerFail']), ser_ok, ser_err, ser_part, none_ok, none_err)
+       lean_meas(f['getIn']['exc']), lean_meas(f['wsgiSerFail']), lean_meas(f['wsgiRefuse']['fault']),
+       lean_meas(f['wsgiRefuse']['exc']),
+       '\n'.join('    | .%s => %s' % (LEAN_SPELLING[k], b(v)) for k, v in f['spellingReaches'].items()), ser_ok, ser_err, ser_part, none_ok, none_err)
 
 
 def fact_witness_case(key, sub=None):
@@ -715,6 +830,11 @@ def fact_witness_case(key, sub=None):
         elif what in ('callRaise', 'retRaise'):
             ev = 'method_call' if what == 'callRaise' else 'method_return_object'
             base['world'] = quiet_world(((ev, kind),))
+    elif key == 'wsgiRefuse':
+        base['inj'] = {'type': 'refuse', 'variant': 'too-long-declared' if sub == 'fault' else 'stream-error'}
+    elif key == 'spellingReaches':
+        w['meths'] = [{'regs': [['method_call', 5]]}]
+        w['spelling'] = sub
     elif key == 'fin':
         base.update(inp='http', outp='http', shape='void', user='fault' if sub[0] else 'ok')
     return base
@@ -760,6 +880,19 @@ def oracle(case, obs, inj):
             view, 'a fault' if st['f'] else 'a normal return', 'failed at ' + stage if exp['f'] else 'did not fail'))
     if obs['out_error'] is not None and obs['out_error'] != st['f']:
         return ('exception-object-vs-response:' + tag, 'ctx.out_error set=%s but the events say fault=%s' % (obs['out_error'], st['f']))
+    # method_call / method_return_object reach every listener of every level, in registration order
+    tr = obs['trace']
+    for ev in ('method_call', 'method_return_object'):
+        starts = [i for i, o in enumerate(tr) if o == ['app', PROBE, ev]]
+        if starts:
+            i = starts[0]
+            seg = []
+            while i < len(tr) and len(tr[i]) == 3 and tr[i][2] == ev and (tr[i][0] in ('app', 'svc') or tr[i][0].startswith('meth')):
+                seg.append(tr[i][:2]); i += 1
+            want = expected_fanout(case['world'], ev)
+            if seg != want:
+                return ('fanout:%s' % ev, '%s reached %s, registered (application, @rpc(%s=...), service class): %s' % (
+                    ev, seg, case['world'].get('spelling'), want))
     # every other listener: a subsequence of what the observer sees, never twice within one firing
     seg = None
     seen = set()
@@ -783,11 +916,13 @@ def gen_regs(rng, events, hs, n):
     return [[rng.choice(events), rng.choice(hs)] for _ in range(n)]
 
 
-def gen_ops(rng, events, hs, n, clear=True):
+def gen_ops(rng, events, hs, n, clear=True, fire=False):
     ops = []
     for _ in range(n):
         k = rng.random()
-        if k < 0.45:
+        if fire and rng.random() < 0.3:
+            ops.append(['fire', rng.choice(events)])
+        elif k < 0.45:
             ops.append(['add', rng.choice(events), rng.choice(hs)])
         elif k < 0.93 or not clear:
             ops.append(['del', rng.choice(events), rng.choice(hs)])
@@ -815,6 +950,9 @@ def gen_world(rng, raiser=None, rich=True):
             spec['ops'] = gen_ops(rng, evs, hs, rng.choice([1, 3, 6]), clear=spec is not w['app'])
     if rng.random() < 0.3 and w['svc']['bases']:
         w['svc']['bases'][0] = {'bases': [{'regs': gen_regs(rng, METHOD_EVENTS, hs, 2)}], 'regs': w['svc']['bases'][0]['regs']}
+    if raiser and raiser[0] == 'meth' and not w['meths']:
+        w['meths'].append({'regs': []})
+    w['spelling'] = rng.choice(SPELLINGS if len(w['meths']) == 1 else SPELLINGS[2:])
     if raiser:
         level, ev, kind = raiser
         if level == 'app':
@@ -868,6 +1006,17 @@ def gen_cases(ctx):
                 add(inp, outp, transport, ok, rng.choice(['fault', 'exc']), None, 'shape+user', shape)
                 add(inp, outp, transport, {'type': 'forced', 'stage': rng.choice(PRE_STAGES + ['dispatch', 'serialize']),
                                            'kind': rng.choice(['fault', 'exc'])}, 'ok', None, 'shape+forced', shape)
+            # the transport refuses the request while reconstructing its input
+            if transport == 'wsgi' and inp != 'http':     # (HttpRpc GET requests: the input stream is never read)
+                for variant in ('too-long-declared', 'bad-length', 'negative-length-text', 'stream-error'):
+                    add(inp, outp, transport, {'type': 'refuse', 'variant': variant}, 'ok', rng.choice(raisers[:3]), 'refuse')
+            # more listeners registered / removed between two requests to the same application
+            for _ in range(2):
+                add(inp, outp, transport, ok, rng.choice(['ok', 'ok', 'fault']), rng.choice(raisers[:5]), 'second-request')
+                hs2 = [1, 2, 3, 4, 5, 6]
+                cases[-1]['then'] = {'app': gen_ops(rng, METHOD_EVENTS, hs2, rng.choice([2, 4, 7]), clear=False),
+                                     'svc': gen_ops(rng, METHOD_EVENTS, hs2, rng.choice([0, 3, 6])),
+                                     'meths': [gen_ops(rng, METHOD_EVENTS, hs2, 3) for _ in range(2)]}
             # real failures of the request
             for variant in ('unknown', 'badarg'):
                 add(inp, outp, transport, {'type': 'real', 'variant': variant}, 'ok', None, variant)
@@ -915,7 +1064,7 @@ def gen_histories(ctx):
         if depth > 0 and rng.random() < 0.7:
             s['bases'] = [spec(depth - 1) for _ in range(rng.choice([1, 1, 2, 3]))]
         if rng.random() < 0.7:
-            s['ops'] = gen_ops(rng, names, [1, 2, 3, 4, 5], rng.choice([1, 2, 4, 8, 14]))
+            s['ops'] = gen_ops(rng, names, [1, 2, 3, 4, 5], rng.choice([1, 2, 4, 8, 14]), fire=True)
         return s
     fixed = [{'regs': []}, {'regs': [['x', 1], ['x', 1]]}, {'regs': [['x', 1], ['x', 2], ['x', 1], ['y', 2], ['x', 3], ['x', 2]]},
              {'bases': [{'regs': [['x', 1], ['x', 2]]}, {'regs': [['x', 2], ['x', 3]]}], 'regs': [['x', 3], ['x', 4], ['x', 1]]},
@@ -933,6 +1082,13 @@ def gen_histories(ctx):
               {'regs': abc + [['y', 1]], 'ops': [['clear', 'x'], ['add', 'x', 3], ['add', 'x', 1]]},
               {'regs': abc, 'ops': [['clear', 'y'], ['del', 'y', 1], ['del', 'x', 1], ['add', 'x', 1], ['del', 'x', 2]]},
               {'bases': [{'regs': abc, 'ops': [['del', 'x', 1]]}, {'regs': [['x', 1]]}], 'regs': [], 'ops': [['del', 'x', 2], ['add', 'x', 2]]}]
+    # firings interleaved with registrations: a listener added / removed after the event has already fired
+    fixed += [{'regs': [['x', 1]], 'ops': [['fire', 'x'], ['add', 'x', 2], ['fire', 'x']]},
+              {'regs': [], 'ops': [['fire', 'x'], ['add', 'x', 1], ['fire', 'x'], ['add', 'x', 2], ['fire', 'x'], ['fire', 'y']]},
+              {'regs': abc, 'ops': [['fire', 'x'], ['del', 'x', 2], ['fire', 'x'], ['add', 'x', 2], ['fire', 'x'], ['add', 'x', 4], ['fire', 'x']]},
+              {'regs': abc, 'ops': [['fire', 'x'], ['clear', 'x'], ['fire', 'x'], ['add', 'x', 3], ['fire', 'x'], ['add', 'x', 1], ['fire', 'x']]},
+              {'bases': [{'regs': abc}], 'regs': [], 'ops': [['fire', 'x'], ['add', 'x', 4], ['fire', 'x'], ['add', 'x', 5], ['fire', 'x']]},
+              {'bases': [{'regs': abc, 'ops': [['fire', 'x'], ['add', 'x', 6]]}], 'regs': [['x', 7]], 'ops': [['fire', 'x'], ['add', 'x', 8], ['fire', 'x']]}]
     for s in fixed:
         out.append(s)
     for _ in range(3000 if ctx.thorough else 400):
@@ -955,11 +1111,17 @@ def real_history(spec, names):
             fns[(h, ev)] = f
         return fns[(h, ev)]
     keyerr = []
+    fires = []
+
+    def on_fire(m, ev):
+        del calls[:]
+        m.fire_event(ev, None)
+        fires.append(list(calls))
     if 'bases' not in spec:
         mgr = EventManager(None)       # a plain manager (application / protocol / transport / @rpc)
         for ev, h in spec.get('regs', []):
             mgr.add_listener(ev, fn(h, ev))
-        keyerr = apply_ops(mgr, spec.get('ops', []), fn)
+        keyerr = apply_ops(mgr, spec.get('ops', []), fn, on_fire)
         managers = [mgr]
     else:
         managers = []
@@ -969,7 +1131,8 @@ def real_history(spec, names):
             cls = type(Service)(name, bases, {})
             for ev, h in s.get('regs', []):
                 cls.event_manager.add_listener(ev, fn(h, ev))
-            raised = apply_ops(cls.event_manager, s.get('ops', []), fn)
+            del fires[:]       # only the firings of the class at the top are compared
+            raised = apply_ops(cls.event_manager, s.get('ops', []), fn, on_fire)
             managers.append(cls.event_manager)
             return cls, raised
         _, keyerr = make_top(make, spec)
@@ -979,7 +1142,7 @@ def real_history(spec, names):
         del calls[:]
         mgr.fire_event(ev, None)
         res.append(list(calls))
-    return res, managers, keyerr
+    return res, managers, keyerr, list(fires)
 
 
 def make_top(make, spec):
@@ -1018,7 +1181,7 @@ def run(ctx):
     bad = []
     for k, good in GOOD_FACTS.items():
         if isinstance(good, dict):
-            bad += [(k, sub) for sub in good if tuple(f[k][sub]) != tuple(good[sub])] if k != 'fin' else \
+            bad += [(k, sub) for sub in good if tuple(f[k][sub]) != tuple(good[sub])] if k not in ('fin', 'spellingReaches') else \
                 [(k, sub) for sub in good if f[k][sub] != good[sub]]
         elif (tuple(f[k]) if isinstance(good, tuple) else f[k]) != good:
             bad.append((k, None))
@@ -1033,18 +1196,25 @@ def run(ctx):
     Q = []
     hist, names = gen_histories(ctx)
     for spec in hist:
-        impl, managers, keyerr = real_history(spec, names)
+        impl, managers, keyerr, fires = real_history(spec, names)
         q = {'op': 'mgr', 'mgr': mgr_json(spec), 'query': names}
-        Q.append((q, {'ok': impl, 'keyerr': keyerr}))
+        Q.append((q, {'ok': impl, 'keyerr': keyerr, 'fires': fires}))
+        ctx.hit('mgr-fires-inside-history', len(fires))
+        want_fires = spec_fires(spec)
+        for i, (got, want) in enumerate(zip(fires, want_fires)):
+            if got != want:
+                ctx.finding('listeners:stale-at-firing', 'history %s: firing #%d calls %s, the registrations at that moment are %s' % (
+                    json.dumps(spec)[:300], i, got, want), {'op': 'mgr', 'spec': spec, 'event': names[0], 'fire_index': i, 'got': got, 'expected': want})
+                break
         ctx.case(q, nontrivial=len(spec.get('regs', [])) + len(spec.get('bases', [])) + len(spec.get('ops', [])) > 1)
         ctx.hit('op:mgr')
-        ctx.hit('mgr-ops:%s' % ('none' if not spec.get('ops') else 'removals' if any(o[0] != 'add' for o in spec['ops']) else 'adds'))
+        ctx.hit('mgr-ops:%s' % ('none' if not spec.get('ops') else 'removals' if any(o[0] in ('del', 'clear') for o in spec['ops']) else 'adds'))
         ctx.hit('mgr-keyerror', sum(keyerr))
         # T3: registration order, once, inherited — against the independent first-occurrence specification
         for ev, got in zip(names, impl):
             want = mgr_handlers(spec, ev)
             if got != want:
-                removed = any(o[0] != 'add' for o in spec.get('ops', []))
+                removed = any(o[0] in ('del', 'clear') for o in spec.get('ops', []))
                 why = 'twice' if len(got) != len(set(got)) else 'removed-still-fires' if removed and set(got) - set(want) else \
                     'removal' if removed else ('inheritance' if spec.get('bases') else 'order')
                 ctx.finding('listeners:' + why, 'listeners registered as %s fire as %s for %r, expected %s' % (
@@ -1055,11 +1225,7 @@ def run(ctx):
 
     # ---- T2 (b) + T3: the pipeline
     cases = gen_cases(ctx)
-    for case in cases:
-        try:
-            obs = run_case(case, keys)
-        except Exception as e:      # the harness itself failed (not the code under test)
-            raise core.Infra('case %r: %s: %s' % (case.get('label'), type(e).__name__, e))
+    def process(case, obs, orig=None):
         inj = model_inj(case, obs)
         q = case_query(case, inj)
         impl = {'ok': {'trace': obs['trace'], 'escaped': obs['escaped'] is not None}}
@@ -1080,14 +1246,23 @@ def run(ctx):
             fid, what = bad_case
             ctx.hit('t3-fail:' + fid.split(':')[0])
             ctx.finding(fid, what + ' [%s in, %s out, %s]' % (case['inp'], case['outp'], case['transport']),
-                        {'op': 'trace', 'case': case, 'observed': {'trace': obs['trace'], 'escaped': obs['escaped'],
-                                                                   'stages': obs['stages'], 'status': obs.get('status')}})
+                        {'op': 'trace', 'case': orig or case, 'second': orig is not None,
+                         'observed': {'trace': obs['trace'], 'escaped': obs['escaped'],
+                                      'stages': obs['stages'], 'status': obs.get('status')}})
         # T2 (c): python copies against Lean
         view = probe_syms(obs['trace'])
         Q.append(({'op': 'accepts', 't': view}, {'ok': automaton(view)}))
         co, ro = fire_outcome(case['world'], 'method_call'), fire_outcome(case['world'], 'method_return_object')
         Q.append(({'op': 'truth', 'stage': inj[0], 'kind': inj[1], 'inner': inj[2], 'co': co or '', 'ro': ro or ''},
                   {'ok': truth(inj[0], co, ro)}))
+    for case in cases:
+        try:
+            obs = run_case(case, keys)
+        except Exception as e:      # the harness itself failed (not the code under test)
+            raise core.Infra('case %r: %s: %s' % (case.get('label'), type(e).__name__, e))
+        process(case, obs)
+        if 'second' in obs:
+            process(dict(case, world=world_after(case['world'], case['then']), label=case['label'] + ':2nd'), obs['second'], orig=case)
     # the automaton copy on mutated traces as well (rejections)
     for case_q, impl in list(Q):
         if case_q['op'] == 'accepts' and ctx.rng.random() < 0.3:
@@ -1159,8 +1334,8 @@ def late_checks(ctx):
         ctx.finding('listeners:shared-with-base', 'unregistering an inherited listener on the subclass changes the base: %s -> %s' % (base, base2),
                     {'op': 'late', 'sub': sub2, 'base': base2})
     # T2: the model of this history (Sub = inherit [Base at creation] + own; Base = its own registrations)
-    return [({'op': 'mgr', 'mgr': {'bases': [{'bases': [], 'regs': [['x', 1]]}], 'regs': [['x', 3]]}, 'query': ['x']}, {'ok': [sub], 'keyerr': []}),
-            ({'op': 'mgr', 'mgr': {'bases': [], 'regs': [['x', 1], ['x', 2]]}, 'query': ['x']}, {'ok': [base], 'keyerr': []})]
+    return [({'op': 'mgr', 'mgr': {'bases': [{'bases': [], 'regs': [['x', 1]]}], 'regs': [['x', 3]]}, 'query': ['x']}, {'ok': [sub], 'keyerr': [], 'fires': []}),
+            ({'op': 'mgr', 'mgr': {'bases': [], 'regs': [['x', 1], ['x', 2]]}, 'query': ['x']}, {'ok': [base], 'keyerr': [], 'fires': []})]
 
 
 def replay(ctx, obj):
@@ -1171,6 +1346,9 @@ def replay(ctx, obj):
         case = obj['case']
         keys = probe_msgpack_keys() or 'bytes'
         obs = run_case(case, keys)
+        if obj.get('second'):
+            print('(second request after registering / removing listeners: %s)' % json.dumps(case['then']))
+            obs, case = obs['second'], dict(case, world=world_after(case['world'], case['then']))
         inj = model_inj(case, obs)
         print('case     :', {k: case.get(k) for k in ('inp', 'outp', 'transport', 'shape', 'inj', 'user')})
         print('failure  :', inj)
@@ -1186,7 +1364,10 @@ def replay(ctx, obj):
             print('model    : not available (%s)' % e)
         return 1 if r else 0
     if obj.get('op') == 'mgr':
-        impl, _, _ = real_history(obj['spec'], [obj['event']])
+        impl, _, _, fires = real_history(obj['spec'], [obj['event']])
+        if 'fire_index' in obj:
+            print('impl firings', fires, 'expected', spec_fires(obj['spec']))
+            return 0 if fires == spec_fires(obj['spec']) else 1
         print('impl fires', impl[0], 'expected', mgr_handlers(obj['spec'], obj['event']))
         return 0 if impl[0] == mgr_handlers(obj['spec'], obj['event']) else 1
     print(json.dumps(obj, indent=1)[:3000])
